@@ -25,7 +25,7 @@ def _pcase(draw, planar):
     kinds = ("star", "comb", "spiral", "lattice", "lattice_free", "lattice_free", "lattice_free", "convex", "untangled")
     return {"poly": draw(gp.simple_polygon(max_n=20, kinds=kinds)), "emb": draw(gp.embedding(planar_only=planar)),
             "pts": draw(points.point_noise(n)), "perm": draw(zoo.noise(min(n, 64))), "single": draw(st.integers(0, 10**6)),
-            "use_convex_cls": draw(st.booleans())}
+            "use_convex_cls": draw(st.booleans()), "xs": draw(st.sampled_from([0.0, 0.0, 0.0, 0.0, -3.0, -6.0, -8.0, 3.0]))}
 
 
 @st.composite
@@ -90,6 +90,8 @@ def _polygon(case, rec, planar):
     want = geom.crossing_number_inside(P2, xy)
     dist = geom.segment_distance_2d(P2, xy, np.roll(xy, -1, axis=0)).min(axis=1)
     P3 = em["to3d"](P2)
+    xs = 10.0 ** case.get("xs", 0.0)  # the whole configuration in other length units (absolute thresholds must not matter)
+    V, P3 = V * xs, P3 * xs
     convex = polygon_is_convex_ccw(xy)
     cls = "ConvexPolygon" if (convex and case["use_convex_cls"]) else "Polygon"
     ctor = getattr(S, cls)
@@ -101,7 +103,8 @@ def _polygon(case, rec, planar):
     if isinstance(shape, Raised):
         rec.fail("construct", dict(sig, type=shape.type), msg=shape.msg)
         return
-    nt = _finish(rec, shape, P3, P2, kinds, want, dist * em["scale"], size * em["scale"], sig, case)
+    nt = _finish(rec, shape, P3, P2, kinds, want, dist * em["scale"] * xs, size * em["scale"] * xs, sig, case)
+    rec.label("units:1e%g" % case.get("xs", 0.0) if case.get("xs") else None)
     if inplane:
         # (N,2) points are the same points with z = 0
         g3 = call(shape.is_inside, P3.copy())
